@@ -143,7 +143,7 @@ def count_qed(pid):
         seen.add(f)
         txt = open(f).read()
         n += len(re.findall(r"\bQed\.", txt))
-        for stmt in re.findall(r"Require\s+(?:Import\s+|Export\s+)?((?:[\w.]+\s*)+)\.(?:\s|$)", txt):
+        for stmt in re.findall(r"Require\s+(?:Import\s+|Export\s+)?(.*?)\.(?:\s|$)", txt, flags=re.S):
             for mod in stmt.split():
                 if mod.startswith("BS."):
                     todo.append(os.path.join(COQ, "theories", mod[3:] + ".v"))
